@@ -26,6 +26,8 @@ EXPLANATION = (
     'non-scalar coordinates before calling contains. Not decided: floating-point '
     'behaviour at the boundary (strictness differences are only noted), numpy '
     'broadcasting, the compiled kernel vs its .pyx source.')
+EXPLANATION_ADDED = (" (R9) integer positions: a may-be-integer dataflow over every contains() and its repository callees (coordinate components keep the caller's dtype; true division, trigonometry, hypot, float literals and float dtypes promote) finds no product or power of two possibly-integer coordinate arrays, which would wrap around silently.")
+EXPLANATION += EXPLANATION_ADDED
 TRUSTED = ['np.cos/np.sin of an angle Quantity are cos/sin of the angle', 'np.hypot(a,b)=sqrt(a^2+b^2)',
            'np.abs, np.logical_not, &, ~ on boolean arrays are element-wise',
            'np.zeros(shape, dtype=bool) is all False', 'the .so kernels were built from the .pyx analysed']
